@@ -540,6 +540,42 @@ def semantic_cases():
         C.append(("client-cert-" + nm, "TLS1.3-RSA-clientauth", "S", "CERT",
                   cert_list(certs, True)))
 
+    # certificates: one DER node of the honest certificate emptied, deleted,
+    # retagged, shortened by a byte or duplicated (all outer lengths fixed)
+    for (cred, sel, victim, tls13) in (
+            ("rsa", "TLS1.2-ECDHE_RSA-GCM", "C", False),
+            ("rsa", "TLS1.3-RSA", "C", True),
+            ("c_rsa", "TLS1.2-RSA-clientauth", "S", False),
+            ("c_rsa", "TLS1.3-RSA-clientauth", "S", True),
+            ("ecdsa", "TLS1.2-ECDHE_ECDSA", "C", False),
+            ("ecdsa", "TLS1.3-ECDSA", "C", True),
+            ("dsa", "TLS1.2-DHE_DSA", "C", False),
+            ("ed25519", "TLS1.2-Ed25519", "C", False),
+            ("ed25519", "TLS1.3-Ed25519-chacha", "C", True)):
+        cert0 = bytes(W.load_cred(cred)[0].x509List[0].bytes)
+        for path in der_paths(cert0, DER_DEPTH[0]):
+            for mk in DER_MUTS:
+                def m(data, path=path, mk=mk, tls13=tls13, cert0=cert0):
+                    d = bytes(data)
+                    if d[0] != 11:
+                        return None
+                    o = 4 + ((1 + d[4]) if tls13 else 0) + 3
+                    ln = int.from_bytes(d[o:o + 3], "big")
+                    c = d[o + 3:o + 3 + ln]
+                    if c != cert0:
+                        return None
+                    nc = der_mutate(c, path, mk)
+                    if nc is None:
+                        return None
+                    rest = d[o + 3 + ln:]
+                    lst = len(nc).to_bytes(3, "big") + nc + rest
+                    body = (d[4:5 + d[4]] if tls13 else b"") + \
+                        len(lst).to_bytes(3, "big") + lst
+                    return _hs(11, body)
+                C.append(("%scert-der-%s-%s@%s" % (
+                    "client-" if victim == "S" else "", cred, mk,
+                    ".".join(str(x) for x in path)), sel, victim, "CERT", m))
+
     # compressed certificate: lengths and bombs (server sends to client)
     def comp_cert(alg, ulen_fn, payload_fn):
         def m(data):
@@ -584,8 +620,94 @@ def semantic_cases():
     return C
 
 
+DER_MUTS = ("empty", "delete", "retag", "trunc1", "dup")
+DER_DEPTH = [4]
+
+
+def _der_children(buf, start, end):
+    """(tag, header length, content start, content end) of the TLVs in
+    buf[start:end]; None if they do not parse."""
+    out = []
+    o = start
+    while o < end:
+        if o + 2 > end:
+            return None
+        tag = buf[o]
+        l0 = buf[o + 1]
+        if l0 < 0x80:
+            hl, ln = 2, l0
+        else:
+            nb = l0 & 0x7f
+            if nb == 0 or nb > 3 or o + 2 + nb > end:
+                return None
+            hl, ln = 2 + nb, int.from_bytes(buf[o + 2:o + 2 + nb], "big")
+        if o + hl + ln > end:
+            return None
+        out.append((tag, o, o + hl, o + hl + ln))
+        o += hl + ln
+    return out
+
+
+def der_paths(cert, depth):
+    """Paths (tuples of child indices) of every node down to `depth`."""
+    paths = []
+
+    def walk(start, end, path):
+        ch = _der_children(cert, start, end)
+        if ch is None:
+            return
+        for i, (tag, o, cs, ce) in enumerate(ch):
+            p = path + (i,)
+            paths.append(p)
+            if tag & 0x20 and len(p) < depth:
+                walk(cs, ce, p)
+    walk(0, len(cert), ())
+    return paths
+
+
+def _der_tlv(tag, content):
+    n = len(content)
+    if n < 0x80:
+        return bytes([tag, n]) + content
+    b = n.to_bytes((n.bit_length() + 7) // 8, "big")
+    return bytes([tag, 0x80 | len(b)]) + b + content
+
+
+def der_mutate(cert, path, kind):
+    """Re-encode `cert` with the node at `path` mutated."""
+    def rebuild(start, end, path):
+        ch = _der_children(cert, start, end)
+        if ch is None or path[0] >= len(ch):
+            return None
+        out = b""
+        for i, (tag, o, cs, ce) in enumerate(ch):
+            if i != path[0]:
+                out += cert[o:ce]
+                continue
+            if len(path) > 1:
+                inner = rebuild(cs, ce, path[1:])
+                if inner is None:
+                    return None
+                out += _der_tlv(tag, inner)
+            elif kind == "empty":
+                out += _der_tlv(tag, b"")
+            elif kind == "delete":
+                pass
+            elif kind == "retag":
+                out += _der_tlv(0x04 if tag != 0x04 else 0x30, cert[cs:ce])
+            elif kind == "trunc1":
+                if ce == cs:
+                    return None
+                out += _der_tlv(tag, cert[cs:ce - 1])
+            elif kind == "dup":
+                out += cert[o:ce] * 2
+        return out
+    return rebuild(0, len(cert), tuple(path))
+
+
 def semantic_case(item):
     ci, tier, seed = item
+    DER_DEPTH[0] = 4 if tier == "quick" else 9
     cases = semantic_cases()
     name, sel, victim, tok, fn = cases[ci]
     scs = S.flavours("thorough")
@@ -675,6 +797,58 @@ def record_case(item):
     if o.status == "ok":
         fails.append(({"kind": "completed-on-junk"}, "handshake completed"))
     return name, victim, vname, sig, fails
+
+
+POST_RECORD_SCENS = [
+    ("TLS1.2-GCM", (3, 3), "TLS_RSA_WITH_AES_128_GCM_SHA256", True),
+    ("TLS1.2-CHACHA", (3, 3),
+     "TLS_ECDHE_RSA_WITH_CHACHA20_POLY1305_SHA256", True),
+    ("TLS1.2-CCM8", (3, 3), "TLS_RSA_WITH_AES_128_CCM_8", True),
+    ("TLS1.2-CBC-EtM", (3, 3), "TLS_RSA_WITH_AES_128_CBC_SHA", True),
+    ("TLS1.2-CBC-MtE", (3, 3), "TLS_RSA_WITH_AES_128_CBC_SHA", False),
+    ("TLS1.1-3DES", (3, 2), "TLS_RSA_WITH_3DES_EDE_CBC_SHA", False),
+    ("TLS1.0-RC4", (3, 1), "TLS_RSA_WITH_RC4_128_SHA", False),
+    ("SSLv3-CBC", (3, 0), "TLS_RSA_WITH_AES_128_CBC_SHA", False),
+    ("TLS1.3-GCM", (3, 4), "TLS_AES_128_GCM_SHA256", True),
+    ("TLS1.3-CHACHA", (3, 4), "TLS_CHACHA20_POLY1305_SHA256", True),
+]
+
+
+def post_record_case(item):
+    """Raw junk records (every first byte, SSLv2-style headers, oversized
+    and empty records, ...) arriving on an *established* connection of each
+    record-protection family; the victim then reads."""
+    si, victim, seed = item
+    name, version, sname, etm = POST_RECORD_SCENS[si]
+    sc = S.scen_for_suite(version, getattr(S.CipherSuite, sname), etm=etm)
+    pair0, out = S.connect(sc, seed=seed)
+    rec = {"scenario": name, "victim": victim, "n": 0, "fails": [],
+           "sigs": set()}
+    if out["C"].status != "ok" or out["S"].status != "ok":
+        rec["fails"].append(({"kind": "honest-failed"}, repr(out), None))
+        return rec
+    pair0.drain()
+    for (cname, data) in record_cases():
+        pair = pair0.clone()
+        pipe = pair.world.c2s if victim == "S" else pair.world.s2c
+        pipe.inject(data)
+        m = Meter(victim)
+        pair.world.meter = m
+        o = pair.read(victim, None, 1)
+        rec["n"] += 1
+        sig, fails = judge(pair, {victim: o}, victim, m, 3000, len(data))
+        if o.status == "ok" and o.value:
+            fails.append(({"kind": "junk-delivered"},
+                          "unauthenticated bytes delivered as application "
+                          "data: %r" % (bytes(o.value)[:20],)))
+        kindname = cname.split("-")[0] if not cname.startswith(
+            "first-byte") else "first-byte"
+        rec["sigs"].add((kindname, sig))
+        for (k, f) in fails:
+            if len(rec["fails"]) < 40:
+                rec["fails"].append((k, f, cname))
+    rec["sigs"] = sorted(rec["sigs"], key=repr)
+    return rec
 
 
 # ---------------------------------------------------------------- post-hs
@@ -921,6 +1095,7 @@ def run(res, tier, seed):
                           {"scenario": rec["scenario"],
                            "victim": rec["victim"], "mutation": label})
     res.section("structural", scenario_roles=len(items), executions=n)
+    DER_DEPTH[0] = 4 if tier == "quick" else 9
     cases = semantic_cases()
     ns = 0
     peaks = {}
@@ -975,6 +1150,26 @@ def run(res, tier, seed):
                               "fail": text},
                           {"post": r["kind"], "mutation": label})
     res.section("post_handshake", executions=npost)
+    npr = 0
+    for r in pmap(post_record_case,
+                  [(si, v, seed) for si in range(len(POST_RECORD_SCENS))
+                   for v in ("C", "S")], chunksize=1, timeout=300):
+        npr += r["n"]
+        res.count(r["n"])
+        for s in r["sigs"]:
+            res.outcome(("postrec",) + tuple(s))
+        for (k, text, label) in r["fails"]:
+            k = dict(k)
+            k["record"] = label if label and not label.startswith(
+                "first-byte") else "first-byte"
+            res.violation(k, {"scenario": r["scenario"],
+                              "victim": r["victim"], "record": label,
+                              "fail": text},
+                          {"post_record": label, "scenario": r["scenario"],
+                           "victim": r["victim"]})
+    res.section("records_after_handshake", executions=npr,
+                families=[x[0] for x in POST_RECORD_SCENS])
+    npost += npr
     res.coverage["distinct_nontrivial"] = n + ns + nr + npost
     res.assumptions += [
         "work bound: Python function calls while the victim runs <= 50 x "
